@@ -962,6 +962,10 @@ func ToEntry(n Node) (e *Entry) {
 			if a := fv.Interface().([]*Deviate); a != nil {
 				for _, d := range a {
 					de := ToEntry(d)
+					// The deviate entry is not a child of the
+					// deviation; keep its errors (e.g. an
+					// unresolvable replacement type).
+					e.importErrors(de)
 
 					dt, ok := toDeviation[d.Statement().Argument]
 					if !ok {
